@@ -24,6 +24,15 @@ BUSY = "jaqalpaq.core.gatedef.BusyGateDefinition"
 GATEDEF = "jaqalpaq.core.gatedef.GateDefinition"
 
 
+def _returns_all_qubits(ix, cls, name) -> bool:
+    """`name` is an accessor method of the visitor that returns self.all_qubits (possibly after a None check)."""
+    m = ix.find_method(cls, name)
+    if m is None:
+        return False
+    rets = [st for st in iter_stmts(m.body) if isinstance(st, ast.Return) and st.value is not None]
+    return bool(rets) and all(isinstance(r.value, ast.Attribute) and r.value.attr == "all_qubits" for r in rets)
+
+
 def run(ctx, rep):
     ix, T = ctx.ix, ctx.typer
     from .common import check_falsy_zero
@@ -72,6 +81,20 @@ def run(ctx, rep):
                 rep.ok("C13.1", cons, "delegates to the base handler" if via_super else "visits the qubit arguments and, for macros, the body", gh.loc())
             else:
                 rep.violation("C13.1", cons, "the gate handler does not visit " + ("the macro body" if reads_used else "the gate's qubit arguments"), gh.loc())
+
+    # a subcircuit block stands for prepare_all .. measure_all: it uses every qubit
+    bh_ = ix.find_method(UQ, "visit_BlockStatement")
+    if bh_ is not None:
+        cons = construct_of(bh_, "subcircuit-implicit-gates")
+        hit = None
+        for st in iter_stmts(bh_.body):
+            if isinstance(st, ast.If) and any(isinstance(m, ast.Attribute) and m.attr == "subcircuit" for m in ast.walk(st.test)):
+                if any(isinstance(n, ast.Attribute) and (n.attr == "all_qubits" or _returns_all_qubits(ix, UQ, n.attr)) for b in st.body for n in ast.walk(b)):
+                    hit = st
+        if hit is not None:
+            rep.ok("C13.1", cons, "`if obj.subcircuit:` merges all qubits (the implicit prepare_all/measure_all)", f"{bh_.path}:{hit.lineno}")
+        else:
+            rep.violation("C13.1", cons, "a subcircuit block is analysed like a plain block: `subcircuit { Px q[1] }` reports only qubit 1 although the block prepares and measures every qubit (its spelled-out form reports all of them)", bh_.loc(), witness="register q[3]\nsubcircuit { Px q[1] }")
 
     # ------------------------------------------------------------ C13.2
     rep.rule("C13.2", "the collision test follows the block kind and the intersection of the two index sets", floor=2)
@@ -192,7 +215,7 @@ def run(ctx, rep):
     vc = ix.find_method(UQ, "visit_Circuit")
     cons = construct_of(gh, "all-marker") if gh else cls_construct(ix, UQ, "all-marker")
     handles_all = gh is not None and any(isinstance(st, ast.If) and isinstance(st.test, ast.Compare) and isinstance(st.test.ops[0], ast.Is) and isinstance(st.test.comparators[0], ast.Name) and st.test.comparators[0].id == "all"
-                                         and any(isinstance(n, ast.Attribute) and n.attr == "all_qubits" for s in st.body for n in ast.walk(s)) for st in iter_stmts(gh.body))
+                                         and any(isinstance(n, ast.Attribute) and (n.attr == "all_qubits" or _returns_all_qubits(ix, UQ, n.attr)) for s in st.body for n in ast.walk(s)) for st in iter_stmts(gh.body))
     if handles_all:
         rep.ok("C13.3", cons, "`param is all` merges self.all_qubits", gh.loc())
     else:
